@@ -34,10 +34,12 @@ func withJoiners(cfg Cfg, n int) Cfg {
 }
 
 // Sizes below were measured on this machine (16 workers, other jobs running): quick explores
-// about 3.7 M states in 40-80 s (B9, the snapshot/compaction box, is 0.32 M of them and closes
-// in 4-9 s), thorough 36 M states in 17 min at load average 60+ (more when idle; B9, B9b, B9c
-// are 1.24 M + 4.2 M + 1.6 M states and close in 22 + 82 + 39 s). Every box stops at its share of the
-// internal time budget (100 s quick, 17 min thorough) and reports the bound it completed.
+// about 3.9 M states in 40-90 s (B9, the snapshot/compaction box, is 0.32 M of them and closes
+// in 4-9 s; B10 + B11, the apply-lag boxes, are 0.11 M + 0.06 M and close in 4-17 s + 2-8 s),
+// thorough 36 M states in 17 min at load average 60+ without the apply-lag boxes (more when idle;
+// B9, B9b, B9c are 1.24 M + 4.2 M + 1.6 M states and close in 22 + 82 + 39 s) plus 6.6 M states
+// in about 6 min at load average 45 for B10, B10p, B11, B11b, B11c. Every box stops at its share
+// of the internal time budget (100 s quick, 24 min thorough) and reports the bound it completed.
 func makeBoxes(tier string) []*Box {
 	thorough := tier == "thorough"
 	pick := func(q, t int) int {
@@ -105,6 +107,75 @@ func makeBoxes(tier string) []*Box {
 		add(&Box{ID: "B9c", Mode: "B", What: "as B9 with the full deviation alphabet (loss, duplication, reordering, delay, untimely campaign/propose/crash/restart)",
 			Cfg: all3, Bud: Budget{MaxTerm: 2, Proposals: 1, Drops: 9, Dups: 9, Delays: 1, Crashes: 1, Heartbeats: 1, Compacts: 2},
 			Depth: 400, MaxDev: 1, Kinds: snapKinds, LeaderPropose: true, Share: 110})
+	}
+	// ---- B10 / B11: apply lag (asynchronous application of committed entries).
+	// Everywhere else applied == committed in every state, because a node's library call and the
+	// handling of its Ready structs are one transition. Here a node may be in lag mode (see evLag
+	// in cluster.go): a Ready with committed entries is persisted and sent, its committed page and
+	// its Advance are held; the RawNode goes on stepping messages, campaigning and accepting
+	// proposals without handing out another Ready until apply(n) / unlag(n). That is the regime in
+	// which the hup guard (no campaign while a committed conf change is unapplied), the pagination
+	// of CommittedEntries (MaxCommittedSizePerReady, which defaults to MaxSizePerMsg: with
+	// MaxSizePerMsg=0 every Ready carries one committed entry) and the pending-conf-change checks
+	// matter.
+	//
+	// B10: three members and two joiners, one entry per message / per Ready. The smallest run in
+	// which a slow applier campaigns on a configuration two membership changes stale is inside
+	// the quick box: lag(3) campaign(1) .. [3 holds the page with the leader's no-op] ..
+	// proposeConf(add 4) .. proposeConf(add 5) .. [3 has accepted both and knows they are
+	// committed, silently] .. campaign(3) [must be refused] apply(3) [3's queued messages leave,
+	// 3 holds the next page, still on {1,2,3}] drop(3's vote request to 1) .. campaign(4)
+	// (75 events, 1 deviation). If campaign(3) is not refused, 2 elects 3 by the old majority and
+	// 1 + 5 elect 4 by the new one in the same term. Budgets of that run: term <= 3, 2 conf
+	// changes, 1 lag, 1 apply, 1 drop, no proposal; the thorough box adds two proposals (so that
+	// the held page / the backlog may also start with or contain normal entries, before, between
+	// or after the conf changes) and a second apply. Stated restrictions, all part of the box
+	// definition: only node 3 lags; the first election is node 1's, the second is between nodes 3
+	// and 4; proposals and conf changes at the leader; conf changes are addV1(4) and addV1(5) in
+	// either order; deviations are message loss and apply(3) while messages are in flight.
+	// Exhaustive within these bounds, no sampling.
+	lag5 := withJoiners(cfgOnePerMsg(3, true), 2)
+	lagRestr := []string{"only node 3 enters lag mode", "first election (term 2) by node 1 only, second election (term 3) by nodes 3 and 4 only",
+		"proposals and conf changes at the leader only", "conf changes: addV1(4), addV1(5), in either order",
+		"deviations: loss of any in-flight message, apply(3) while messages are in flight"}
+	lagBy := map[uint64][]int{0: {}, 1: {1}, 2: {3, 4}}
+	add(&Box{ID: "B10", Mode: "B", What: "apply lag with two membership changes, one committed entry per Ready: a slow applier (node 3) steps messages, campaigns and receives votes while a committed page is unapplied; campaigning with committed conf changes anywhere in the apply backlog must be refused",
+		Cfg: lag5, Bud: Budget{MaxTerm: 3, Proposals: pick(0, 2), Drops: 1, ConfChanges: 2, Lags: 1, Applies: pick(1, 2)},
+		Depth: 400, MaxDev: 1, Kinds: kinds(evCampaign, evConf, evLag, evApply, evUnlag) | uint32(pick(0, 1<<evPropose)), Devs: kinds(evDrop, evApply),
+		LeaderPropose: true, LagAt: 3, CampaignBy: lagBy, ConfVariants: []uint16{ccAddV1, ccAddV1Second}, Restrictions: lagRestr, Share: pick(20, 300)})
+	if thorough {
+		add(&Box{ID: "B10p", Mode: "B", What: "as B10 with raftexample's 1 MiB page size: the whole apply backlog is one page",
+			Cfg: withJoiners(cfgPlain(3, true), 2), Bud: Budget{MaxTerm: 3, Proposals: 1, Drops: 1, ConfChanges: 2, Lags: 1, Applies: 1},
+			Depth: 400, MaxDev: 1, Kinds: kinds(evCampaign, evPropose, evConf, evLag, evApply, evUnlag), Devs: kinds(evDrop, evApply),
+			LeaderPropose: true, LagAt: 3, CampaignBy: lagBy, ConfVariants: []uint16{ccAddV1, ccAddV1Second}, Restrictions: lagRestr, Share: 50})
+	}
+	// B11: three members and a joiner, any node may lag (a leader that is slow in applying its
+	// own conf change included), one conf change (add 4 / remove 3), crash and restart (a crash
+	// while a Ready is held loses it; the restarted application rebuilds its state from the
+	// storage's snapshot and re-applies every committed entry above it, page by page if it is
+	// still in lag mode). Deviations: loss, apply / lag / crash while messages are in flight.
+	lag3 := cfgOnePerMsg(3, true)
+	lagKinds := kinds(evCampaign, evPropose, evConf, evCrash, evRestart, evLag, evApply, evUnlag)
+	lagDevs := kinds(evDrop, evApply, evLag, evCrash)
+	cc11 := []uint16{ccAddV1, ccRemoveV1}
+	if !thorough {
+		add(&Box{ID: "B11", Mode: "B", What: "apply lag on any of three members (leader included) with one membership change (add 4 / remove 3) and crash / restart while a committed page is held; one election",
+			Cfg: lag3, Bud: Budget{MaxTerm: 2, Drops: 1, Crashes: 1, ConfChanges: 1, Lags: 1, Applies: 2},
+			Depth: 400, MaxDev: 1, Kinds: lagKinds, Devs: lagDevs, LeaderPropose: true, CampaignAt: 1, ConfVariants: cc11,
+			Restrictions: []string{"one election, by node 1", "conf changes at the leader only: addV1(4) or removeV1(3)"}, Share: 12})
+	} else {
+		add(&Box{ID: "B11", Mode: "B", What: "apply lag on any of three members (leader included) with one membership change (add 4 / remove 3) and crash / restart while a committed page is held; second election by any node (campaigns with an apply backlog, restart followed by campaign)",
+			Cfg: lag3, Bud: Budget{MaxTerm: 3, Drops: 1, Crashes: 1, ConfChanges: 1, Lags: 1, Applies: 2},
+			Depth: 400, MaxDev: 1, Kinds: lagKinds, Devs: lagDevs, LeaderPropose: true, CampaignBy: map[uint64][]int{0: {}, 1: {1}}, ConfVariants: cc11,
+			Restrictions: []string{"first election (term 2) by node 1 only, second election by any node", "conf changes at the leader only: addV1(4) or removeV1(3)"}, Share: 90})
+		add(&Box{ID: "B11b", Mode: "B", What: "as B11 with one election and a proposal (normal entries before / after the conf change in the held page and in the backlog)",
+			Cfg: lag3, Bud: Budget{MaxTerm: 2, Proposals: 1, Drops: 1, Crashes: 1, ConfChanges: 1, Lags: 1, Applies: 2},
+			Depth: 400, MaxDev: 1, Kinds: lagKinds, Devs: lagDevs, LeaderPropose: true, CampaignAt: 1, ConfVariants: cc11,
+			Restrictions: []string{"one election, by node 1", "proposals and conf changes at the leader only: addV1(4) or removeV1(3)"}, Share: 30})
+		add(&Box{ID: "B11c", Mode: "B", What: "apply lag with log compaction and snapshot transfer: MsgSnap stepped by a node that holds a committed page (the page ends up below the snapshot), compaction at the applied index of a lagging node, restart in lag mode from a compacted storage",
+			Cfg: cfgOnePerMsg(3, false), Bud: Budget{MaxTerm: 2, Proposals: 1, Drops: 1, Crashes: 1, Heartbeats: 1, Compacts: 1, Lags: 1, Applies: 2},
+			Depth: 400, MaxDev: 1, Kinds: kinds(evCampaign, evPropose, evHeartbeat, evCrash, evRestart, evCompact, evLag, evApply, evUnlag), Devs: kinds(evDrop, evApply, evLag),
+			LeaderPropose: true, CampaignAt: 1, Restrictions: []string{"one election, by node 1", "proposals at the leader only"}, Share: 30})
 	}
 	add(&Box{ID: "B4", Mode: "B", What: "membership changes: add node 4 as voter or as learner then promote, remove node 3 (also while it leads), joint consensus with automatic and explicit leave; two changes per run",
 		Cfg: cfgPlain(3, true), Bud: Budget{MaxTerm: 3, Drops: 9, Dups: 9, ConfChanges: 2},
